@@ -163,7 +163,10 @@ class Env:
 
 
 def compile_prog(src: str) -> Any:
-    ns: Dict[str, Any] = {"__name__": "verif_prog"}
+    # g0..g199: filler globals for programs that need high name indices (EXTENDED_ARG at the start of a line);
+    # GE: the environment as a GLOBAL (bound by drive()), so that a with line can begin with LOAD_GLOBAL
+    ns: Dict[str, Any] = {"__name__": "verif_prog", "GE": None}
+    ns.update({f"g{i}": 0 for i in range(200)})
     exec(compile(src, "<prog>", "exec"), ns)
     return ns["prog"]
 
@@ -217,6 +220,7 @@ def drive(prog: Any, kind: str, script: Tuple[bool, ...], throw_at: Optional[int
     """Run prog(E) to completion; call on_suspend(Observation) at every suspension
     of prog's own frame (including while a manager's __aenter__/__aexit__ is what is suspended)."""
     env = Env(script)
+    prog.__globals__["GE"] = env
     if on_probe is not None:
         env.prog_code = prog.__code__
         env.on_probe = on_probe
